@@ -36,6 +36,8 @@ def lockable(o):
         # extracting a helper is not a checker problem); the package-level and read-only-API
         # obligations come from the sidecar lists
         return n.startswith("fx/package/") or n.endswith("/modifies-nothing")
+    if n.startswith("rx/facts/") or "/capture/item" in n:
+        return False        # named after the shipped pattern's own text / items: an equivalent rewrite renames them
     return k in _LOCK_KINDS or n.startswith("rx/") or n.startswith("lemma:")
 
 
